@@ -20,6 +20,7 @@ import (
 	"strconv"
 	"strings"
 	"syscall"
+	"time"
 
 	blocks "github.com/ipfs/go-block-format"
 	"github.com/ipfs/go-cid"
@@ -655,7 +656,7 @@ func c09RunCall(p *c09Prepared) c09Res {
 			res.Out = "ok"
 		}
 	}()
-	<-done
+	c09Await(done)
 	for _, cl := range c.closers {
 		cl.Close()
 	}
@@ -663,6 +664,98 @@ func c09RunCall(p *c09Prepared) c09Res {
 	res.Budget = c.exceeded
 	res.NoProgress = c.noProgress
 	return res
+}
+
+// c09Await waits for the call. While waiting it looks at the goroutines every 500 ms: when every
+// goroutine with frames of go-car or of this harness is blocked on a channel or a mutex (no I/O, no
+// timer, nothing runnable) and that picture has not changed for 10 s, nothing in the process can ever
+// wake them — the call does not terminate. The child then reports it the way the runtime reports its
+// own "all goroutines are asleep" and exits; the parent attributes it to the call logged as started.
+func c09Await(done chan struct{}) {
+	tick := time.NewTicker(500 * time.Millisecond)
+	defer tick.Stop()
+	var last uint64
+	stable := 0
+	for {
+		select {
+		case <-done:
+			return
+		case <-tick.C:
+			sig, blocked, n := c09BlockedState()
+			if blocked && sig == last {
+				stable++
+			} else {
+				stable = 0
+			}
+			last = sig
+			if blocked && stable >= 20 {
+				fmt.Fprintf(os.Stderr, "fatal error: hang: every goroutine of the call is blocked on a channel or mutex and nothing can wake it\n\n%s\n", c09StackBuf[:n])
+				os.Exit(2)
+			}
+		}
+	}
+}
+
+// the picture is taken and read without allocating: the allocation counter of the call under
+// measurement is process-wide
+var (
+	c09StackBuf = make([]byte, 1<<20)
+	c09Sep      = []byte("\n\n")
+	c09PkgCar   = []byte("github.com/ipld/go-car")
+	c09PkgLab   = []byte("carlab/checks.")
+)
+
+func c09IsBlockingState(st []byte) bool {
+	switch string(st) {
+	case "chan receive", "chan send", "select", "select (no cases)", "chan receive (nil chan)", "chan send (nil chan)",
+		"sync.Mutex.Lock", "sync.RWMutex.RLock", "sync.RWMutex.Lock", "sync.Cond.Wait", "sync.WaitGroup.Wait", "semacquire":
+		return true
+	}
+	return false
+}
+
+func c09BlockedState() (sig uint64, allBlocked bool, n int) {
+	n = runtime.Stack(c09StackBuf, true)
+	rest := c09StackBuf[:n]
+	sig = 14695981039346656037
+	mix := func(b []byte) {
+		for _, x := range b {
+			sig = (sig ^ uint64(x)) * 1099511628211
+		}
+	}
+	count := 0
+	for i := 0; len(rest) > 0; i++ {
+		var blk []byte
+		if k := bytes.Index(rest, c09Sep); k >= 0 {
+			blk, rest = rest[:k], rest[k+2:]
+		} else {
+			blk, rest = rest, nil
+		}
+		if i == 0 {
+			continue // the goroutine taking this picture
+		}
+		if !bytes.Contains(blk, c09PkgCar) && !bytes.Contains(blk, c09PkgLab) {
+			continue
+		}
+		// "goroutine 12 [chan receive, 2 minutes]:"
+		lb := bytes.IndexByte(blk, '[')
+		nl := bytes.IndexByte(blk, '\n')
+		if lb < 0 || nl < lb {
+			return 0, false, n
+		}
+		st := blk[lb+1 : nl]
+		if e := bytes.IndexAny(st, ",]"); e >= 0 {
+			st = st[:e]
+		}
+		if !c09IsBlockingState(st) {
+			return 0, false, n
+		}
+		count++
+		mix(blk[:lb])
+		mix(st)
+		mix(blk[nl:])
+	}
+	return sig, count > 0, n
 }
 
 func c09Trunc(s string, n int) string {
